@@ -83,7 +83,7 @@ static S kind_name(bool f1, bool f2, bool fn, bool rel, bool cb, const S &cls)
 {
     // the classes with a load_basic overload of their own
     static const char *own[] = {"RealDouble", "Infty", "NaN", "Symbol", "Dummy", "Mul", "Add", "Pow",
-                                "Integer", "Constant", "Rational", "Complex", "Interval", "BooleanAtom",
+                                "Integer", "Constant", "Rational", "Complex", "ComplexDouble", "Interval", "BooleanAtom",
                                 "And", "Or", "Xor", "Not", "Piecewise", "Contains", "Reals", "Rationals",
                                 "EmptySet", "Integers", "UniversalSet", "Union", "Complement", "ImageSet",
                                 "FiniteSet", "ConditionSet", "Derivative", "Subs", "FunctionSymbol",
@@ -285,7 +285,10 @@ static S matrix_roundtrip(const S &rest, const Emit &emit)
     std::getline(is, tail);
     vec_basic v;
     for (auto &rs : split_sep(tail, " ;; "))
-        v.push_back(verif::eval_recipe(rs));
+        if (rs.find_first_not_of(" \t") != S::npos)
+            v.push_back(verif::eval_recipe(rs));
+    if (v.size() != (size_t)r * c)
+        throw std::runtime_error("mrt: wrong number of elements");
     for (auto &x : v)
         verif::dump(*x);
     emit("@");
